@@ -28,17 +28,17 @@ def run(ctx, repo):
     RL.o_converter_domain(ctx, repo)
     RL.o_ts_fields(ctx, repo)
     RL.o_dump_subset_load(ctx, repo)
-    RL.r_resolve_index(ctx, repo)
-    RR2.r_resolver_shared(ctx, repo)
-    RE.r_plain_implies_implicit(ctx, repo)
+    ctx.call(RL.r_resolve_index, repo)
+    ctx.call(RR2.r_resolver_shared, repo)
+    ctx.call(RE.r_plain_implies_implicit, repo)
     L = RL.langs(repo)
     ctx.extra['alphabet_classes'] = L.alpha.n
     ctx.extra['dfa_states'] = {k.split(':')[-1]: v.nstates for k, v in L.dfa.items()}
 
-    RX.r_timestamp_int_fields(ctx, repo)
+    ctx.call(RX.r_timestamp_int_fields, repo)
 
-    RX.r_timestamp_exact(ctx, repo)
-    RL.r_regex_linear(ctx, repo)
+    ctx.call(RX.r_timestamp_exact, repo)
+    ctx.call(RL.r_regex_linear, repo)
 
 
 if __name__ == '__main__':
